@@ -27,26 +27,16 @@ Open Scope N_scope.
 (** ** finite geometry: squares between the king and a checking slider *)
 Lemma between_btw_check :
   forallb (fun k => forallb (fun a => forallb (fun e =>
-    negb (ray_in 0 e k a) || forallb (fun t => N.testbit (between a k) t) (btw e k a)) all_dirs) squares64) squares64 = true.
+    if ray_in 0 e k a then forallb (fun t => N.testbit (between a k) t) (btw e k a) else true) all_dirs) squares64) squares64 = true.
 Proof. vm_cast_no_check (eq_refl true). Qed.
 
 Lemma between_btw k a e t : k < 64 -> a < 64 -> ray_in 0 e k a = true -> In t (btw e k a) ->
   N.testbit (between a k) t = true.
 Proof.
   intros Hk Ha Hr Ht. pose proof (forall_squares _ (forall_squares _ between_btw_check k Hk) a Ha) as H. cbv beta in H.
-  rewrite forallb_forall in H. specialize (H e (in_all_dirs e)). rewrite Hr in H. cbn [negb orb] in H.
+  rewrite forallb_forall in H. specialize (H e (in_all_dirs e)). rewrite Hr in H.
   rewrite forallb_forall in H. now apply H.
 Qed.
-
-Definition blockers (k t : N) : list (dir * N) :=
-  filter (fun '(e, a) => ray_in 0 e k a && existsb (N.eqb t) (btw e k a)) (list_prod all_dirs squares64).
-
-Lemma double_block_check :
-  forallb (fun k => forallb (fun t =>
-    let L := blockers k t in
-    forallb (fun '(e1, a1) => forallb (fun '(e2, a2) =>
-      (a1 =? a2) || existsb (N.eqb a1) (btw e2 k a2) || existsb (N.eqb a2) (btw e1 k a1)) L) L) squares64) squares64 = true.
-Proof. vm_cast_no_check (eq_refl true). Qed.
 
 Lemma btw_lt e k a u : In u (btw e k a) -> u < 64.
 Proof.
@@ -56,34 +46,71 @@ Proof.
   now apply walk_lt in Hin.
 Qed.
 
+(* per king square and direction: the empty-board ray w; everything between the king and a
+   square of w lies on w; two squares of w are ordered; rays of different directions are disjoint *)
+Definition ray_facts (k : N) (e : dir) : bool :=
+  let w := walk 7 e k 0 in
+  forallb (fun a => if ray_in 0 e k a then
+                      existsb (N.eqb a) w &&
+                      forallb (fun t => existsb (N.eqb t) w) (btw e k a) &&
+                      negb (existsb (N.eqb k) (btw e k a)) && negb (existsb (N.eqb a) (btw e k a))
+                    else true) squares64 &&
+  forallb (fun a1 => forallb (fun a2 =>
+     (a1 =? a2) || existsb (N.eqb a1) (btw e k a2) || existsb (N.eqb a2) (btw e k a1)) w) w &&
+  forallb (fun e2 => match e, e2 with
+                     | DN, DN | DE, DE | DS, DS | DW, DW | DNE, DNE | DSE, DSE | DSW, DSW | DNW, DNW => true
+                     | _, _ => forallb (fun t => negb (existsb (N.eqb t) (walk 7 e2 k 0))) w end) all_dirs.
+
+Lemma ray_facts_check : forallb (fun k => forallb (ray_facts k) all_dirs) squares64 = true.
+Proof. vm_cast_no_check (eq_refl true). Qed.
+
+Lemma ray_facts_ok k e : k < 64 -> ray_facts k e = true.
+Proof.
+  intros Hk. pose proof (forall_squares _ ray_facts_check k Hk) as H. cbv beta in H.
+  exact (proj1 (forallb_forall _ _) H e (in_all_dirs e)).
+Qed.
+
+Lemma btw_on_ray e k a u : k < 64 -> a < 64 -> ray_in 0 e k a = true -> In u (btw e k a) ->
+  In u (walk 7 e k 0) /\ In a (walk 7 e k 0) /\ u <> k /\ u <> a.
+Proof.
+  intros Hk Ha Hr Hu. pose proof (ray_facts_ok k e Hk) as H. unfold ray_facts in H. cbv zeta in H.
+  apply andb_true_iff in H as [H _]. apply andb_true_iff in H as [H _].
+  pose proof (forall_squares _ H a Ha) as G. cbv beta in G. rewrite Hr in G.
+  apply andb_true_iff in G as [G GD]. apply andb_true_iff in G as [G GC]. apply andb_true_iff in G as [GA GB].
+  rewrite forallb_forall in GB. specialize (GB u Hu).
+  apply existsb_eqb_In in GA, GB. apply negb_true_iff in GC, GD.
+  repeat split; try assumption; intros ->; apply existsb_eqb_In in Hu; congruence.
+Qed.
+
+Lemma dir_eq_dec (e1 e2 : dir) : {e1 = e2} + {e1 <> e2}.
+Proof. decide equality. Qed.
+
+Lemma rays_disjoint k e1 e2 u : k < 64 -> In u (walk 7 e1 k 0) -> In u (walk 7 e2 k 0) -> e1 = e2.
+Proof.
+  intros Hk H1 H2. destruct (dir_eq_dec e1 e2) as [E|E]; [exact E|exfalso].
+  pose proof (ray_facts_ok k e1 Hk) as H. unfold ray_facts in H. cbv zeta in H.
+  apply andb_true_iff in H as [_ H]. rewrite forallb_forall in H. specialize (H e2 (in_all_dirs e2)).
+  destruct e1, e2; try congruence; rewrite forallb_forall in H; specialize (H u H1);
+    apply negb_true_iff in H; apply existsb_eqb_In in H2; congruence.
+Qed.
+
 Lemma double_block k t e1 a1 e2 a2 : k < 64 -> a1 < 64 -> a2 < 64 ->
   ray_in 0 e1 k a1 = true -> In t (btw e1 k a1) -> ray_in 0 e2 k a2 = true -> In t (btw e2 k a2) -> a1 <> a2 ->
   In a1 (btw e2 k a2) \/ In a2 (btw e1 k a1).
 Proof.
-  intros Hk H1 H2 R1 B1 R2 B2 Hne. pose proof (btw_lt _ _ _ _ B1) as Ht.
-  pose proof (forall_squares _ (forall_squares _ double_block_check k Hk) t Ht) as H. cbv beta zeta in H.
-  assert (I1 : In (e1, a1) (blockers k t)).
-  { apply filter_In. split; [apply in_prod; [apply in_all_dirs|now apply in_squares64]|].
-    rewrite R1. cbn [andb]. now apply existsb_eqb_In. }
-  assert (I2 : In (e2, a2) (blockers k t)).
-  { apply filter_In. split; [apply in_prod; [apply in_all_dirs|now apply in_squares64]|].
-    rewrite R2. cbn [andb]. now apply existsb_eqb_In. }
-  rewrite forallb_forall in H. specialize (H _ I1). cbv beta iota in H.
-  rewrite forallb_forall in H. specialize (H _ I2). cbv beta iota in H.
-  replace (a1 =? a2) with false in H by lia. cbn [orb] in H. apply orb_true_iff in H as [H|H]; apply existsb_eqb_In in H; auto.
+  intros Hk H1 H2 R1 B1 R2 B2 Hne.
+  destruct (btw_on_ray e1 k a1 t Hk H1 R1 B1) as (T1 & A1 & _).
+  destruct (btw_on_ray e2 k a2 t Hk H2 R2 B2) as (T2 & A2 & _).
+  assert (E : e1 = e2) by (apply (rays_disjoint k e1 e2 t Hk T1 T2)). subst e2.
+  pose proof (ray_facts_ok k e1 Hk) as H. unfold ray_facts in H. cbv zeta in H.
+  apply andb_true_iff in H as [H _]. apply andb_true_iff in H as [_ H].
+  rewrite forallb_forall in H. specialize (H a1 A1). rewrite forallb_forall in H. specialize (H a2 A2).
+  replace (a1 =? a2) with false in H by lia. cbn [orb] in H.
+  apply orb_true_iff in H as [H|H]; apply existsb_eqb_In in H; auto.
 Qed.
 
-Lemma btw_not_start_check :
-  forallb (fun k => forallb (fun a => forallb (fun e => negb (existsb (N.eqb k) (btw e k a)) && negb (existsb (N.eqb a) (btw e k a)))
-                                               all_dirs) squares64) squares64 = true.
-Proof. vm_cast_no_check (eq_refl true). Qed.
-
-Lemma btw_not_ends e k a u : k < 64 -> a < 64 -> In u (btw e k a) -> u <> k /\ u <> a.
-Proof.
-  intros Hk Ha Hu. pose proof (forall_squares _ (forall_squares _ btw_not_start_check k Hk) a Ha) as H. cbv beta in H.
-  rewrite forallb_forall in H. specialize (H e (in_all_dirs e)). apply andb_true_iff in H as [H1 H2].
-  apply negb_true_iff in H1, H2. split; intros ->; apply existsb_eqb_In in Hu; congruence.
-Qed.
+Lemma btw_not_ends e k a u : k < 64 -> a < 64 -> ray_in 0 e k a = true -> In u (btw e k a) -> u <> k /\ u <> a.
+Proof. intros Hk Ha Hr Hu. destruct (btw_on_ray e k a u Hk Ha Hr Hu) as (_ & _ & A & B). now split. Qed.
 
 (* the board after a move that changes f and t only *)
 Section After.
